@@ -120,7 +120,21 @@ func c04Case(c *core.Ctx) *core.Result {
 	for i := 0; i < nEdits; i++ {
 		var name string
 		cg := core.Catch(func() {
-			switch r.Intn(12) {
+			switch r.Intn(13) {
+			case 12:
+				// the document properties are the library's to write; the relationships the package came with stay as they are
+				name = "Properties"
+				switch r.Intn(4) {
+				case 0:
+					d.SetTitle("⟦new⟧ title")
+				case 1:
+					d.SetAuthor("someone else")
+				case 2:
+					d.UpdateStatistics()
+				case 3:
+					d.SetKeywords("a, b")
+				}
+				touched["docProps/core.xml"], touched["docProps/app.xml"] = true, true
 			case 11:
 				// a picture paragraph of the opened body is removed again (it carries no text): the picture's file may still be
 				// shown elsewhere - by a header through the header's own relationships - and is a part like any other
